@@ -20,7 +20,7 @@ from vf.b09 import parse
 from vf.cb import render
 from vf.core import Stats, Violation
 from vf.diff import Trivial
-from vf.gen import cbgen
+from vf.gen import cbgen, full
 from vf.props import c10
 
 ID = "C05"
@@ -124,7 +124,7 @@ class CG:
         return ["bin", "AND", ["par", ["fn", "INT", [["fn", "ABS", [self.num(depth, True)]]]]], ["num", "7", 7]]
 
 
-SLOTS = ["assign", "assign_elem", "sassign", "if", "if_body", "ifelse", "for", "print", "printat", "subscript_rhs", "on", "device", "width", "read_sub", "input_sub"]
+SLOTS = ["whole_rhs", "print_unary", "assign", "assign_elem", "sassign", "if", "if_body", "ifelse", "for", "print", "printat", "subscript_rhs", "on", "device", "width", "read_sub", "input_sub"]
 
 
 @st.composite
@@ -140,15 +140,48 @@ def cases(draw, switches):
     if slot == "ifelse" and "no_convertible_in_ifelse_cond" in switches:
         cg.excluded.hit("no_convertible_in_ifelse_cond")
         slot = "if"
-    if slot == "assign":
+    if slot == "whole_rhs":
+        # the whole right-hand side is one call (the tool then assigns straight into the target), with and without LET
+        cg.n += 1
+        let = draw(st.booleans())
+        kind = draw(st.sampled_from(["num", "elem", "str"]))
+        if kind == "str":
+            f = draw(st.sampled_from(["STR$", "HEX$", "STRING$", "INKEY$"]))
+            rhs = {"STR$": ["fn", "STR$", [cg.num(depth - 1, True)]], "HEX$": ["fn", "HEX$", [["fn", "ABS", [["fn", "INT", [cg.num(depth - 1, True)]]]]]],
+                   "STRING$": ["fn", "STRING$", [["num", "2", 2], ["scat", ["str", "*"], cg.string(depth - 1, True, plain=True)]]], "INKEY$": ["fn", "INKEY$", []]}[f]
+            if f == "HEX$":
+                cg.n += 1
+            body = [["let", ["svar", draw(st.sampled_from(["U", "S"]))], rhs, let]]
+        else:
+            f = draw(st.sampled_from(["INT", "VAL", "BUTTON", "POINT", "INSTR"]))
+            rhs = {"INT": ["fn", "INT", [cg.num(depth - 1, True)]], "VAL": ["fn", "VAL", [cg.string(depth - 1, True, plain=True)]],
+                   "BUTTON": ["fn", "BUTTON", [["num", "1", 1]]], "POINT": ["fn", "POINT", [cg.num(depth - 1, True), cg.num(0, True)]],
+                   "INSTR": ["fn", "INSTR", [["num", "1", 1], cg.string(depth - 1, True, plain=True), ["str", "B"]]]}[f]
+            if kind == "elem":
+                cg.n += 1
+                body = [["let", ["arr", "P", [cg.subscript(0)]], rhs, let]]
+            else:
+                body = [["let", ["var", "X"], rhs, let]]
+    elif slot == "print_unary":
+        # a PRINT operand that starts with a unary operator
+        cg.n += 1
+        inner = ["fn", "INT", [cg.num(depth - 1, True)]]
+        first = ["neg", inner] if draw(st.booleans()) else ["not", ["fn", "INT", [["var", draw(st.sampled_from(["I", "J"]))]]]]
+        items = [["e", first]]
+        if draw(st.booleans()):
+            items = [["e", ["str", "V="]], ["s", ";"]] + items
+        if draw(st.booleans()):
+            items += [["s", draw(st.sampled_from([";", ","]))], ["e", cg.num(1)]]
+        body = [["print", items]] if draw(st.booleans()) else [["printat", ["num", "40", 40], items]]
+    elif slot == "assign":
         if draw(st.integers(0, 3)) == 0:
             cg.n += 1
             body = [["let", ["var", "X"], ["fn", "INT", [["bin", "+", ["var", "X"], cg.num(depth - 1, True)]]], False]]  # X=INT(X+..): target among the arguments
         else:
-            body = [["let", ["var", "X"], cg.num(depth), False]]
+            body = [["let", ["var", "X"], cg.num(depth), draw(st.booleans())]]
     elif slot == "assign_elem":
         cg.n += 1
-        body = [["let", ["arr", "P", [cg.subscript(depth - 1)]], cg.num(depth), False]]
+        body = [["let", ["arr", "P", [cg.subscript(depth - 1)]], cg.num(depth), draw(st.booleans())]]
     elif slot == "sassign":
         tv = draw(st.sampled_from(["U", "U", "S"]))
         if draw(st.integers(0, 2)) == 0:
@@ -163,7 +196,7 @@ def cases(draw, switches):
                 rhs = ["fn", "HEX$", [["bin", "+", ["fn", "LEN", [["svar", tv]]], ["num", "10", 10]]]]
             body = [["let", ["svar", tv], rhs, False]]
         else:
-            body = [["let", ["svar", tv], cg.string(depth), False]]
+            body = [["let", ["svar", tv], cg.string(depth), draw(st.booleans())]]
     elif slot == "if":
         body = [["if", ["cmp", draw(st.sampled_from(["=", "<", ">="])), cg.num(depth), cg.num(1)], ["stmts", [["let", ["var", "X"], ["bin", "+", ["var", "X"], ["num", "1", 1]], False]]], None]]
     elif slot == "if_body":
@@ -239,8 +272,8 @@ def cases(draw, switches):
     if data:
         prog.append([85, [data]])
     prog += extra
-    return {"prog": prog, "paren_unary": "paren_unary" in switches,
-            "_meta": {"slot": slot, "n_conv": cg.n, "nested": cg.nested, "excluded": dict(cg.excluded)}}
+    return full.add_layout(draw, {"prog": prog, "paren_unary": "paren_unary" in switches,
+                                  "_meta": {"slot": slot, "n_conv": cg.n, "nested": cg.nested, "excluded": dict(cg.excluded)}}, switches, key="source_override")
 
 
 def source_identifiers(prog):
@@ -386,6 +419,8 @@ def campaign(seed, n, switches=frozenset()):
 
     def body(case):
         meta = case.pop("_meta")
+        if meta.get("drawn_layout"):
+            stats.classes["drawn_layout"] += 1
         case = dict(case)
         check_case(case)
         triv = case.get("_trivial")
@@ -397,7 +432,7 @@ def campaign(seed, n, switches=frozenset()):
             classes.append("trivial_" + triv.split(":")[0].split(" ")[0])
         for k, v in meta["excluded"].items():
             stats.excluded[k] += v
-        stats.case(key=case["prog"], nontrivial=nt, classes=classes, sample={"source": case.get("_source", "").split("\n")[2] if case.get("_source") else ""})
+        stats.case(key=case["prog"], nontrivial=nt, classes=classes, sample={"source": (case.get("_source", "").replace("\r\n", "\n").replace("\r", "\n").split("\n") + ["", "", ""])[2]})
 
     core.run_hypothesis(body, cases(switches), seed=seed, max_examples=n, stats=stats)
     return stats
